@@ -220,8 +220,65 @@ static int cmd_sa(char** tok, int nt)
     return 0;
 }
 
+/* ------------------------------------------------------------------ byte-order helpers (C13)
+ * BO <fn> <size> <xhex>   fn: CpuToBe BeToCpu CpuToLe LeToCpu Bswap
+ * answer: R ok val=<logical value of the result> img=<memory image of the result object>      */
+#include "avtp/Byteorder.h"
+static int cmd_bo(char** tok, int nt)
+{
+    if (nt < 4) return 0;
+    const char* fn = tok[1]; int size = atoi(tok[2]);
+    uint8_t xb[8] = {0}, vb[8], img[8];
+    unhex(tok[3], xb, 8);
+    uint64_t x = 0; for (int i = 0; i < size; i++) x = (x << 8) | xb[i];
+    uint64_t r = 0; int ok = 1;
+#define DISPATCH(bits, T) \
+    if (!strcmp(fn, "CpuToBe")) { T y = Avtp_CpuToBe##bits((T)x); memcpy(img, &y, sizeof y); r = y; } \
+    else if (!strcmp(fn, "BeToCpu")) { T y = Avtp_BeToCpu##bits((T)x); memcpy(img, &y, sizeof y); r = y; } \
+    else if (!strcmp(fn, "CpuToLe")) { T y = Avtp_CpuToLe##bits((T)x); memcpy(img, &y, sizeof y); r = y; } \
+    else if (!strcmp(fn, "LeToCpu")) { T y = Avtp_LeToCpu##bits((T)x); memcpy(img, &y, sizeof y); r = y; } \
+    else if (!strcmp(fn, "Bswap")) { T y = Avtp_Bswap##bits((T)x); memcpy(img, &y, sizeof y); r = y; } \
+    else ok = 0;
+    if (size == 2) { DISPATCH(16, uint16_t) } else if (size == 4) { DISPATCH(32, uint32_t) } else if (size == 8) { DISPATCH(64, uint64_t) } else ok = 0;
+    if (!ok) { printf("R nobind\n"); return 1; }
+    for (int i = size - 1; i >= 0; i--) { vb[i] = (uint8_t)r; r >>= 8; }
+    printf("R ok val="); puthex(vb, size); printf(" img="); puthex(img, size); putchar('\n');
+    return 1;
+}
+
+/* ------------------------------------------------------------------ raw by-descriptor API (C01/C02 shapes, C14)
+ * Y <op> <q> <off> <w> <val16> <base> <place> <poff> <arenahex>       op: get | set                      */
+#include "avtp/Utils.h"
+typedef struct { int set; Avtp_FieldDescriptor_t tab[3]; uint8_t* hdr; uint64_t val, ret; } RawCtx;
+static void raw_fn(void* p)
+{
+    RawCtx* c = p;
+    if (c->set) Avtp_SetField(c->tab, 3, c->hdr, 1, c->val); else c->ret = Avtp_GetField(c->tab, 3, c->hdr, 1);
+}
+static int cmd_raw(char** tok, int nt)
+{
+    static uint8_t arena_b[EXT_MAXARENA]; uint8_t vb[8];
+    if (nt < 10) return 0;
+    RawCtx c; memset(&c, 0, sizeof c);
+    c.set = !strcmp(tok[1], "set");
+    c.tab[0].quadlet = 0; c.tab[0].offset = 0; c.tab[0].bits = 8;
+    c.tab[1].quadlet = (uint8_t)atoi(tok[2]); c.tab[1].offset = (uint8_t)atoi(tok[3]); c.tab[1].bits = (uint8_t)atoi(tok[4]);
+    c.tab[2].quadlet = 1; c.tab[2].offset = 4; c.tab[2].bits = 12;
+    unhex(tok[5], vb, 8); c.val = be64x(vb);
+    long base = atol(tok[6]); char place = tok[7][0]; long off = atol(tok[8]);
+    size_t alen = unhex(tok[9], arena_b, sizeof arena_b);
+    uint8_t* arena = ext_place(place, off, arena_b, alen);
+    c.hdr = arena + base;
+    char status[64];
+    ext_call(raw_fn, &c, status, sizeof status, arena);
+    ext_result(status, c.ret, 0, 0, arena, alen); putchar('\n');
+    return 1;
+}
+
 int exec_ext(char** tok, int nt)
 {
+    if (!strcmp(tok[0], "Y")) return cmd_raw(tok, nt);
+    if (!strcmp(tok[0], "BO")) return cmd_bo(tok, nt);
     if (!strcmp(tok[0], "VS")) return cmd_vss(tok, nt);
     if (!strcmp(tok[0], "SA")) return cmd_sa(tok, nt);
     if (!strcmp(tok[0], "CB")) return cmd_can(tok, nt);
